@@ -28,6 +28,8 @@ type FUnit struct {
 	// Opt: lal got the bytes but the connection ended before the harness could confirm the unit was
 	// processed (in flight at a reset / close): a consumer may or may not have received it.
 	Opt bool
+	// HasVideo: the incarnation this unit belongs to publishes video.
+	HasVideo bool
 }
 
 var sdfPrefix = append([]byte{2, 0, 13}, []byte("@setDataFrame")...)
@@ -63,7 +65,7 @@ func (rr *RelayRun) Forwardable(stream int) []FUnit {
 			if sent.DeliveredStep < 0 {
 				continue // never reached lal
 			}
-			out = append(out, FUnit{Pub: pi, U: u, Sent: sent, Want: want, Opt: sent.ProcessedStep < 0})
+			out = append(out, FUnit{Pub: pi, U: u, Sent: sent, Want: want, Opt: sent.ProcessedStep < 0, HasVideo: p.Plan.VideoCodec != 0})
 		}
 	}
 	return out
@@ -160,22 +162,29 @@ func CheckC01(k *sim.Kernel, rr *RelayRun) {
 			continue
 		}
 		name := fmt.Sprintf("cons%d(%s)", ci, c.Plan.Proto)
+		JudgeConsumer(k, "C01", name, c, rr.Forwardable(c.Plan.Stream), rr.Plan.Conf)
+	}
+}
+
+// JudgeConsumer applies the relay-integrity oracle to one RTMP / FLV consumer against the forwardable
+// units F of its stream (rule ids are prefixed with prop).
+func JudgeConsumer(k *sim.Kernel, prop string, name string, c *ConsState, F []FUnit, conf LalConf) {
+	{
 		if c.Rtmp != nil && c.Rtmp.ParseErr != nil {
-			k.Violate("C01.framing", "%s: RTMP chunk stream from lal does not parse: %v", name, c.Rtmp.ParseErr)
+			k.Violate(prop+".framing", "%s: RTMP chunk stream from lal does not parse: %v", name, c.Rtmp.ParseErr)
 		}
 		if c.Http != nil {
 			if c.Http.Flv.Err != nil {
-				k.Violate("C01.framing", "%s: FLV stream from lal does not parse: %v", name, c.Http.Flv.Err)
+				k.Violate(prop+".framing", "%s: FLV stream from lal does not parse: %v", name, c.Http.Flv.Err)
 			}
 			if c.Http.Ws.Err != nil {
-				k.Violate("C01.framing", "%s: WebSocket stream from lal does not parse: %v", name, c.Http.Ws.Err)
+				k.Violate(prop+".framing", "%s: WebSocket stream from lal does not parse: %v", name, c.Http.Ws.Err)
 			}
 		}
-		F := rr.Forwardable(c.Plan.Stream)
 		R := consItems(c)
 		for j := range R {
 			if len(R[j].Payload) == 0 {
-				k.Violate("C01.zero-length", "%s: received a zero-length message #%d type=%d", name, j, R[j].Type)
+				k.Violate(prop+".zero-length", "%s: received a zero-length message #%d type=%d", name, j, R[j].Type)
 			}
 		}
 		al, problem := Align(R, F)
@@ -189,12 +198,12 @@ func CheckC01(k *sim.Kernel, rr *RelayRun) {
 			}
 		}
 		if problem != "" {
-			k.Violate("C01.content", "%s: %s", name, problem)
+			k.Violate(prop+".content", "%s: %s", name, problem)
 		}
 		joinDone := c.JoinDoneStep()
-		gop := rr.Plan.Conf.RtmpGop
+		gop := conf.RtmpGop
 		if c.Plan.Proto != "rtmp" {
-			gop = rr.Plan.Conf.FlvGop
+			gop = conf.FlvGop
 		}
 		// prologue: headers and metadata; frames only from the GOP cache, i.e. handed to lal before the join completed
 		for j := 0; j < al.LiveFrom; j++ {
@@ -208,23 +217,23 @@ func CheckC01(k *sim.Kernel, rr *RelayRun) {
 				}
 			}
 			if match == nil {
-				k.Violate("C01.content", "%s: prologue item #%d %s equals no published unit", name, j, describe(it))
+				k.Violate(prop+".content", "%s: prologue item #%d %s equals no published unit", name, j, describe(it))
 			}
 			if isFrame(match.U.Kind) {
 				if gop == 0 {
-					k.Violate("C01.skip", "%s: frame %s is followed by a gap in the published order (GOP cache is off, so it cannot be replay)", name, describe(it))
+					k.Violate(prop+".skip", "%s: frame %s is followed by a gap in the published order (GOP cache is off, so it cannot be replay)", name, describe(it))
 				}
 				if joinDone >= 0 && match.Sent.DeliveredStep > joinDone {
-					k.Violate("C01.skip", "%s: frame %s reached lal after the consumer had joined, yet later published frames are missing after it", name, describe(it))
+					k.Violate(prop+".skip", "%s: frame %s reached lal after the consumer had joined, yet later published frames are missing after it", name, describe(it))
 				}
 			}
 		}
 		left := c.Left || c.Kicked
 		if c.ClosedByLal() && !left {
-			k.Violate("C01.disconnect", "%s: lal closed a healthy consumer that had not left", name)
+			k.Violate(prop+".disconnect", "%s: lal closed a healthy consumer that had not left", name)
 		}
 		if left {
-			continue
+			return
 		}
 		// coverage: from the first unit that must be delivered to the end (minus merge-write slack)
 		end := len(F)
@@ -251,14 +260,14 @@ func CheckC01(k *sim.Kernel, rr *RelayRun) {
 				}
 			}
 			switch {
-			case replayed, rr.Pubs[F[firstAfter].Pub].Plan.VideoCodec == 0:
+			case replayed, !F[firstAfter].HasVideo:
 				mustFrom = firstAfter
 			default:
 				for p := firstAfter; p < end; p++ {
 					if F[p].Opt {
 						continue
 					}
-					if (F[p].U.Kind == media.KVideo && F[p].U.Key) || rr.Pubs[F[p].Pub].Plan.VideoCodec == 0 {
+					if (F[p].U.Kind == media.KVideo && F[p].U.Key) || !F[p].HasVideo {
 						mustFrom = p
 						break
 					}
@@ -276,13 +285,13 @@ func CheckC01(k *sim.Kernel, rr *RelayRun) {
 		}
 		tailAllow := 0
 		if c.Plan.Proto == "rtmp" {
-			tailAllow = rr.Plan.Conf.MergeWrite
+			tailAllow = conf.MergeWrite
 		}
 		if mustFrom >= 0 && mustFrom < end {
 			missingFrom := mustFrom
 			if al.HasLive && al.E > mustFrom {
 				if al.S > mustFrom {
-					k.Violate("C01.skip", "%s: first delivered live unit is #%d of the stream but unit #%d (%s, ts=%d) was published after the consumer had joined and was due",
+					k.Violate(prop+".skip", "%s: first delivered live unit is #%d of the stream but unit #%d (%s, ts=%d) was published after the consumer had joined and was due",
 						name, al.S, mustFrom, F[mustFrom].U.Kind, F[mustFrom].U.Ts)
 				}
 				missingFrom = al.E
@@ -294,7 +303,7 @@ func CheckC01(k *sim.Kernel, rr *RelayRun) {
 				}
 			}
 			if missing > 0 && (tailAllow == 0 || missing >= tailAllow) {
-				k.Violate("C01.tail", "%s: units #%d..#%d (%d payload bytes) were published and processed but never delivered (merge_write_size=%d)",
+				k.Violate(prop+".tail", "%s: units #%d..#%d (%d payload bytes) were published and processed but never delivered (merge_write_size=%d)",
 					name, missingFrom, end-1, missing, tailAllow)
 			}
 			if missing > 0 {
